@@ -59,7 +59,10 @@ def replay(path):
     from . import replay_loglik
     with open(path) as f:
         rep = json.load(f)
-    fails, _ = replay_loglik.replay_case((rep['case']['config'], rep['seed']))
+    if 'long_series' in rep['case']['config']:
+        fails, _ = replay_loglik.long_series_checks(rep['seed'])
+    else:
+        fails, _ = replay_loglik.replay_case((rep['case']['config'], rep['seed']))
     for f_ in fails:
         print('VIOLATION property=%s replay=%s' % (PROP, path))
         print('  clause=%s manifestation=%s detail=%s' % (f_['clause'], f_['manifestation'], str(f_['detail'])[:400]))
